@@ -129,6 +129,14 @@ def step (_ : Unit) (ts : List String) : Unit × String :=
           s!"{c.1} {c.2} {roundMsD d} {fieldsStr (calcF (roundMsD d))} {str (toUTCString .full (roundMsD d))}"
         else "range"
       | _, _ => "bad-op"
+    | ["diff", a, b] => match a.toInt?, b.toInt? with
+      | some m1, some m2 =>
+        if inRange m1 && inRange m2 then
+          let d := diffD (toDouble m1) (toDouble m2)
+          let c := normD 64 d.1 d.2
+          s!"{c.1} {c.2} {roundMsD d}"
+        else "range"
+      | _, _ => "bad-op"
     | ["cmp", a, b] => match a.toInt?, b.toInt? with
       | some m1, some m2 =>
         if inRange m1 && inRange m2 then
